@@ -167,10 +167,13 @@ def parse_google_drive_url(url):
 
         return GoogleDrivePublicLink(drive_type, path[3])
 
-    if not path[2]:
+    # NOTE: at the end of the file's url a trailing blank would be stripped
+    file_id = path[2].strip()
+
+    if not file_id:
         return None
 
-    return GoogleDriveFile(drive_type, path[2])
+    return GoogleDriveFile(drive_type, file_id)
 
 
 def extract_id_from_google_drive_url(url):
